@@ -341,12 +341,29 @@ class Seg:
     def exec_node(self, node):
         if node.kind == 'cond':
             # conditions are decided by the path; calls inside them are executed for their effects
+            # a condition may have an effect (`i-- != 0`): it is evaluated ONCE - the attempt to decide it must not leave its effect behind
+            # when the key is computed afterwards
+            has_fx = any(isinstance(x, dict) and ((x.get('k') == 'un' and x.get('op') in ('++', '--')) or x.get('k') == 'assign')
+                         for x in walk(node.ast))
+            if has_fx:
+                snap_store, snap_written = dict(self.store), list(self.written)
             d = self.decide(node.ast)
             if d is not None:
                 return ('decided', d)
+            if has_fx:
+                self.store, self.written = snap_store, snap_written
             x = strip(node.ast)
             while isinstance(x, dict) and x.get('k') in ('cast', 'paren'):
                 x = strip(x['e'])
+            xr = self._flag_expr(x)
+            if isinstance(xr, dict) and xr.get('k') == 'ref' and getattr(self, 'boolrels', None):
+                try:
+                    l_ = self.loc(xr)
+                except Unsupported:
+                    l_ = None
+                br = self.boolrels.get(l_)
+                if br is not None and all(self.store.get(k_) == v_ for k_, v_ in br[1].items()):
+                    x = br[0]          # the named relation, its operands unchanged since the declaration
             if isinstance(x, dict) and x.get('k') == 'bin' and x.get('op') in ('==', '!=') and self._is_flag(x['lhs']) and self._is_flag(x['rhs']):
                 a = self._inline_cond(x['lhs'])
                 kb = self.cond_key(self._flag_expr(x['rhs']))
@@ -382,6 +399,16 @@ class Seg:
         while isinstance(x, dict) and x.get('k') in ('cast', 'paren', 'load'):
             x = strip(x['e'])
         return x
+
+    def _flag_locs(self, e):
+        out = []
+        for y in walk(e):
+            if isinstance(y, dict) and y.get('k') == 'ref' and y.get('rk') in ('local', 'param'):
+                try:
+                    out.append(self.loc(y))
+                except Unsupported:
+                    pass
+        return out
 
     def _is_flag(self, e):
         """a boolean-typed operand that is not a literal (a flag variable, a comparison, a negation)"""
@@ -538,6 +565,10 @@ class Seg:
                         # the flag names its defining comparison (over the values at the declaration)
                         self.boolkeys = dict(getattr(self, 'boolkeys', {}))
                         self.boolkeys[name] = self.cond_key(x)
+                        if x.get('op') in ('==', '!=') and self._is_flag(x['lhs']) and self._is_flag(x['rhs']):
+                            # a relation between two run-time flags: remembered as written, decomposed where it is tested
+                            self.boolrels = dict(getattr(self, 'boolrels', {}))
+                            self.boolrels[name] = (x, {l_: self.store.get(l_) for l_ in self._flag_locs(x)})
             return
         if init is not None and init.get('k') == 'copyctor':
             self.copy_into(name, self.loc(init['e']), t)
@@ -1097,8 +1128,31 @@ def exec_until(prog, fn, stop, max_states=256):
         if k == 'constexpr_if':
             return run(seg, s.get('taken'))
         if k in ('expr', 'decl', 'null'):
-            seg.stmt(s)
-            return [(seg, 'ok')]
+            # a `?:` on run-time data inside the statement: one state per outcome (choice script, as in run_path_all)
+            outs = []
+            work = [[]]
+            while work:
+                script = work.pop()
+                s2 = _copy_seg(seg)
+                for attr in ('boolkeys', 'undef_prefix', 'helper_conds', 'inline_depth'):
+                    if hasattr(seg, attr):
+                        setattr(s2, attr, getattr(seg, attr) if attr == 'inline_depth' else type(getattr(seg, attr))(getattr(seg, attr)))
+                s2.script, s2.script_pos = list(script), 0
+                try:
+                    s2.stmt(s)
+                except NeedChoice:
+                    if len(script) > 6:
+                        raise Unsupported('too many run-time conditionals in one statement at %s' % loc_str(s))
+                    work.append(script + [True])
+                    work.append(script + [False])
+                    continue
+                hc = getattr(s2, 'helper_conds', [])
+                if hc:
+                    s2.conds = list(getattr(s2, 'conds', [])) + list(hc)
+                    s2.helper_conds = []
+                s2.script, s2.script_pos = [], 0
+                outs.append((s2, 'ok'))
+            return outs
         if k == 'return':
             seg.stmt(s)
             results.append(seg)
